@@ -157,13 +157,13 @@ def cmp_expr(e, wname, fname):
             val = Fraction(str(c.value))
         else:
             raise Unsupported(f"unsupported comparand at {where(e, fname)}")
-        v2 = val * 2
-        if v2.denominator != 1:
-            raise Unsupported(f"winding compared with a non half-integer at {where(e, fname)}")
+        v2 = val * 2          # compare 2*wind (an integer) with 2*c = N/D as  w2 * D  op  N  over the integers
         ops = {ast.Gt: ">", ast.GtE: "≥", ast.Lt: "<", ast.LtE: "≤", ast.Eq: "=", ast.NotEq: "≠"}
         for k, sym in ops.items():
             if isinstance(e.ops[0], k):
-                return f"decide (w2 {sym} ({int(v2)} : Int))"
+                if v2.denominator == 1:
+                    return f"decide (w2 {sym} ({int(v2)} : Int))"
+                return f"decide (w2 * ({v2.denominator} : Int) {sym} ({v2.numerator} : Int))"
     raise Unsupported(f"unsupported comparison {ast.dump(e)[:80]} at {where(e, fname)}")
 
 
